@@ -98,6 +98,7 @@ fn main() {
         "C17" => props::c17::run(tier),
         "C18" => props::c18::run(tier),
         "C19" => props::c19::run(tier),
+        "C20" => props::c20::run(tier),
         _ => {
             eprintln!("unknown check {id}");
             2
